@@ -68,9 +68,10 @@ func c17Gen(seed uint64, tier string) any {
 				src += " + XX3"
 			}
 		}
-		if r.Chance(1, 8) {
+		if r.Chance(1, 6) {
 			// names that exist in an inner frame with a null value and mean something further out
-			src = Pick(r, []string{"x = 7; func shf(x) { return x }; shf(null)", "func shb(abs) { return abs }; typeId(shb(null))", "y = 3; func shg(y) { func inner() { return y }; return inner() }; shg(null) ?? 9",
+			src = Pick(r, []string{"s = '  hi  '; &al = s; al", "s2 = 'line\n'; &a2 = s2; a2 + 'x'", "pad = ' 7 '; &ap = pad; &aq = ap; aq + ap", "t3 = '\tx'; &at = t3; `{at}`",
+				"x = 7; func shf(x) { return x }; shf(null)", "func shb(abs) { return abs }; typeId(shb(null))", "y = 3; func shg(y) { func inner() { return y }; return inner() }; shg(null) ?? 9",
 				"g1 = 5; &shc = g1; func shh(g1) { return shc + (g1 ?? 1) }; shh(null)", "func shi(len0) { len0 = null; return len0 ?? 2 }; shi(4)", "z = [1,2]; func shj(z) { return z ?? 'none' }; shj(null)"})
 		}
 		if sc.StreamFail && r.Chance(1, 3) {
